@@ -129,9 +129,17 @@ directive @transform(op: String!) repeatable on FIELD
                     schema = Some(s.node);
                 }
                 TypeSystemDefinition::Directive(d) => {
-                    directives
+                    match directives
                         .insert_or_error(Arc::from(d.node.name.node.to_string()), d.node)
-                        .unwrap();
+                    {
+                        Ok(_) => {}
+                        Err(err) => {
+                            let directive_name = err.entry.key();
+                            return Err(InvalidSchemaError::DuplicateDirectiveDefinition(
+                                directive_name.to_string(),
+                            ));
+                        }
+                    }
                 }
                 TypeSystemDefinition::Type(t) => {
                     let node = t.node;
@@ -144,7 +152,15 @@ directive @transform(op: String!) repeatable on FIELD
 
                     match &node.kind {
                         TypeKind::Scalar => {
-                            scalars.insert_or_error(type_name.clone(), node.clone()).unwrap();
+                            match scalars.insert_or_error(type_name.clone(), node.clone()) {
+                                Ok(_) => {}
+                                Err(err) => {
+                                    let scalar_name = err.entry.key();
+                                    return Err(InvalidSchemaError::DuplicateScalarDefinition(
+                                        scalar_name.to_string(),
+                                    ));
+                                }
+                            }
                         }
                         TypeKind::Object(_) | TypeKind::Interface(_) => {
                             match vertex_types.insert_or_error(type_name.clone(), node.clone()) {
